@@ -126,6 +126,44 @@ impl Type {
         }
     }
 
+    /// Text form of the type that does not depend on the iteration order of union members
+    /// and struct fields (both are sorted); used to pick among union members deterministically
+    pub(crate) fn canonical_string(&self) -> String {
+        let list = |types: &[Type]| {
+            join(
+                &types
+                    .iter()
+                    .map(Self::canonical_string)
+                    .collect::<Box<[_]>>(),
+                ", ",
+            )
+        };
+        match self {
+            Type::Function(function) => format!(
+                "({})->({})",
+                list(&function.params),
+                function.return_type.canonical_string()
+            ),
+            Type::Array(element) => format!("[{}]", element.canonical_string()),
+            Type::Tuple(types) => format!("({})", list(types)),
+            Type::Multi(multi) => {
+                let mut members: Box<[String]> = multi.iter().map(Self::canonical_string).collect();
+                members.sort_unstable();
+                members.join("|")
+            }
+            Type::Mut(element) => format!("mut ({})", element.canonical_string()),
+            Type::Struct(tm) => {
+                let mut fields: Box<[String]> =
+                    tm.0.iter()
+                        .map(|(key, value)| format!("{key}: {}", value.canonical_string()))
+                        .collect();
+                fields.sort_unstable();
+                format!("struct{{{}}}", fields.join(", "))
+            }
+            other => other.to_string(),
+        }
+    }
+
     /// Flatten self to single tuple
     pub fn flatten_tuple(self) -> Option<Arc<[Type]>> {
         match self {
